@@ -44,6 +44,9 @@ pub enum Fault {
     DanglingDir { r: usize, off: u32 },
     /// hook-free, directory-component patterns: a regular file sits where the directory of archive offset `off` belongs
     FileAtDir { r: usize, off: u32 },
+    /// hook-free, directory-component patterns: the directory of archive offset `off` is a symbolic link into a file
+    /// system of another kind where nothing can be created (/proc/self): rename fails one way, the copy fallback another
+    ForeignDir { r: usize, off: u32 },
 }
 
 /// One faulted execution = what a replay file holds.
@@ -304,7 +307,7 @@ fn execute_in(dir: &Path, image: &Path, f: &Faulted, obs: &mut Obs) -> Result<Re
                 obstacle_placed = true;
             }
         }
-        if let Fault::DanglingDir { r, off } | Fault::FileAtDir { r, off } = &f.fault {
+        if let Fault::DanglingDir { r, off } | Fault::FileAtDir { r, off } | Fault::ForeignDir { r, off } = &f.fault {
             let rot = state.lock().unwrap().rotation;
             let slot = archive_path(dir, &case.roller, *off).unwrap().parent().unwrap().to_path_buf();
             // the roller creates the slot directories ahead of use: an absent or still empty one is replaced
@@ -318,6 +321,8 @@ fn execute_in(dir: &Path, image: &Path, f: &Faulted, obs: &mut Obs) -> Result<Re
                 std::fs::create_dir_all(slot.parent().unwrap()).unwrap();
                 if matches!(f.fault, Fault::DanglingDir { .. }) {
                     std::os::unix::fs::symlink(dir.join("no-such-volume"), &slot).unwrap();
+                } else if matches!(f.fault, Fault::ForeignDir { .. }) {
+                    std::os::unix::fs::symlink("/proc/self", &slot).unwrap();
                 } else {
                     std::fs::write(&slot, b"not a directory").unwrap();
                 }
@@ -452,7 +457,7 @@ pub fn check_faulted(tmp: &Path, f: &Faulted, obs: &mut Obs) -> CaseResult {
     let count = window_count(&f.case.roller);
     let shift_step = match &f.fault {
         Fault::Error { s, .. } | Fault::Crash { s, .. } => (*s as u32) < count.saturating_sub(1),
-        Fault::Obstacle { off, .. } | Fault::DanglingDir { off, .. } | Fault::FileAtDir { off, .. } => *off > 0,
+        Fault::Obstacle { off, .. } | Fault::DanglingDir { off, .. } | Fault::FileAtDir { off, .. } | Fault::ForeignDir { off, .. } => *off > 0,
         Fault::None => false,
     };
     let pre = matches!(f.case.trigger, TrigSpec::Scripted(_, true) | TrigSpec::Time(..));
@@ -464,6 +469,7 @@ pub fn check_faulted(tmp: &Path, f: &Faulted, obs: &mut Obs) -> CaseResult {
         Fault::Obstacle { .. } => "fault=obstacle-directory",
         Fault::DanglingDir { .. } => "fault=dangling-symlink-directory",
         Fault::FileAtDir { .. } => "fault=regular-file-at-slot-directory",
+        Fault::ForeignDir { .. } => "fault=slot-directory-is-a-link-into-procfs",
     });
     obs.class_if(shift_step, "fault-at-shift-step");
     obs.class_if(!f.case.append_mode, "truncate-mode");
@@ -498,6 +504,9 @@ pub fn expand(tmp: &Path, case: &Case) -> Result<Vec<Faulted>, Failure> {
                     for off in (r as u32)..*count {
                         out.push(Faulted { case: case.clone(), fault: Fault::DanglingDir { r, off } });
                         out.push(Faulted { case: case.clone(), fault: Fault::FileAtDir { r, off } });
+                        if Path::new("/proc/self").is_dir() {
+                            out.push(Faulted { case: case.clone(), fault: Fault::ForeignDir { r, off } });
+                        }
                     }
                 }
             }
@@ -668,7 +677,7 @@ pub fn replay(part: &str, case: serde_json::Value) -> Option<CaseResult> {
 pub fn meta() -> EvidenceMeta {
     EvidenceMeta {
         level: "fault_enumeration",
-        rule: "cases = generated histories (trigger: size / scripted pre-processing / scripted post-processing / time via the guarded clock; fixed window base in {0,1,7, u32::MAX-count+1}, count 1-6, plain / directory-component / .gz pattern; append or truncate mode; 5-40 appends of self-delimiting records; obstruction persisting for 1-3 rotation attempts; continuation of 3-25 appends). Each history is first run dry to learn its rotations, then EVERY (rotation, step) pair - each archive shift and the final move/compress - is enumerated twice through hook H2: as an injected error (rotate aborts exactly there) and as a crash point (directory image, restart on the image in the same mode, continuation); plus hook-free obstructions: a non-empty directory at the destination of the final move / of the first shift, and (directory patterns) a dangling symlink or a regular file in place of any slot directory of the window. Part global-logger (child process per case): the rolling appender is the root appender of the installed global logger, every archive slot is a non-empty directory until half-way through; every record logged through the macros must come back (20 s watchdog per record: a rotation failure that is reported through the logger itself must not dead-lock the appender), in order, none lost. evaluations counts histories, oracle_evaluations_inside_cases counts faulted executions and appends. Oracle after every append and on every crash image: failing append returns Err and never panics; every managed file parses into whole records; archives by descending index then the active file yield an in-order duplicate-free stream that is gap-free w.r.t. acknowledged records; every chunk on disk before the operation except the top-index archive is still present byte-for-byte (active chunk may have grown); after the fault is lifted every append succeeds and a size trigger performs the pending rotation. non-trivial = a history with a fault at a shift step of a window >= 2, or any fault in truncate mode, or a pre-processing trigger".into(),
+        rule: "cases = generated histories (trigger: size / scripted pre-processing / scripted post-processing / time via the guarded clock; fixed window base in {0,1,7, u32::MAX-count+1}, count 1-6, plain / directory-component / .gz pattern; append or truncate mode; 5-40 appends of self-delimiting records; obstruction persisting for 1-3 rotation attempts; continuation of 3-25 appends). Each history is first run dry to learn its rotations, then EVERY (rotation, step) pair - each archive shift and the final move/compress - is enumerated twice through hook H2: as an injected error (rotate aborts exactly there) and as a crash point (directory image, restart on the image in the same mode, continuation); plus hook-free obstructions: a non-empty directory at the destination of the final move / of the first shift, and (directory patterns) a dangling symlink, a regular file or a link into procfs (rename fails with EXDEV, the copy fallback in its own way) in place of any slot directory of the window. Part global-logger (child process per case): the rolling appender is the root appender of the installed global logger, every archive slot is a non-empty directory until half-way through; every record logged through the macros must come back (20 s watchdog per record: a rotation failure that is reported through the logger itself must not dead-lock the appender), in order, none lost. evaluations counts histories, oracle_evaluations_inside_cases counts faulted executions and appends. Oracle after every append and on every crash image: failing append returns Err and never panics; every managed file parses into whole records; archives by descending index then the active file yield an in-order duplicate-free stream that is gap-free w.r.t. acknowledged records; every chunk on disk before the operation except the top-index archive is still present byte-for-byte (active chunk may have grown); after the fault is lifted every append succeeds and a size trigger performs the pending rotation. non-trivial = a history with a fault at a shift step of a window >= 2, or any fault in truncate mode, or a pre-processing trigger".into(),
         assumptions: vec![
             "crash = process death with an intact page cache (directory image at hook points between steps); fsync/power loss and mid-compression crashes are not modelled".into(),
             "foreground rotation only (the statement does not quantify over background rotation)".into(),
